@@ -147,6 +147,9 @@ def argument_forms():
     return out
 
 
+SAVE_ALL = ("closing-groups", "sole-layer")
+
+
 def run(ctx: core.Run):
     treetable.regenerate(ctx)
     ctx.prove(["PsdVerif.Props.C09"] + c09_reopen.modules(ctx))
@@ -167,7 +170,17 @@ def run(ctx: core.Run):
             for h in hs:
                 traces.append(T.run_history(recipe, h, check_fresh=False, check_inv=False))
             ctx.hist("exhaustive_histories", "%s depth %d" % (recipe[0], d), len(hs))
+    # directed families (treeops.directed_histories): the bulky ones are saved + reopened as a sample (with the
+    # exhaustive histories), the ones about what is written (closing groups, emptied documents) all of them
+    directed = T.directed_histories(rng, ctx.quick)
+    for fam, recipe, h in directed:
+        if fam not in SAVE_ALL:
+            traces.append(T.run_history(recipe, h, check_fresh=False, check_inv=False))
     n_exh = len(traces)
+    for fam, recipe, h in directed:
+        ctx.hist("directed_histories", fam)
+        if fam in SAVE_ALL:
+            traces.append(T.run_history(recipe, h, check_fresh=False, check_inv=False))
     # every single candidate operation on the documents with artboards / shared names; all of them are saved and reopened
     for recipe in T.NAMED_TREES if not ctx.quick else T.NAMED_TREES[:2]:
         hs = T.exhaustive_histories(recipe, 1, level=1)
